@@ -45,7 +45,7 @@ def r1_who_may(cx):
     for pat, owner, what in ((r"tempfile::NamedTempFile::<.*>::persist|NamedTempFile<.*>::persist", "AtomicOutFile as creator::PackRecipient>::close_file", "persist"),
                              (r"tempfile::NamedTempFile::new_in", "creator::AtomicOutFile::new", "new_in")):
         sites = []
-        for f in F.fns:
+        for f in F.live_fns:
             if "blocks" not in f:
                 continue
             for blk in f["blocks"]:
